@@ -662,6 +662,12 @@ func genC14(r *Rng, tier string) []Case {
 			creds = append(creds, c14randCred(rk, ml, k%2 == 1))
 		}
 	}
+	// large key material: everything a 16-bit entry length can carry is inside the property (a 16384-bit key with its
+	// primes is 3100 octets; the largest entry is 65535)
+	for _, ml := range []int{512, 1024, 2048, 2049, 4096} {
+		creds = append(creds, c14randCred(rk, ml, true), c14randCred(rk, ml, false))
+	}
+	creds = append(creds, c14randCred(rk, 32753, true), c14randCred(rk, 65535-28, false))
 	// all three versions x boundary ticks x GUID corners on one tiny key
 	for _, v := range []uint32{0, 0x100, 0x200} {
 		for _, t := range []uint64{0, 1, 0x7FFFFFFFFFFFFFFF, 0xFFFFFFFFFFFFFFFF} {
